@@ -393,6 +393,10 @@ func (e *FakePreSharedKeyExtension) Write(b []byte) (n int, err error) {
 	fullLen := len(b)
 	s := cryptobyte.String(b)
 
+	// decode into an empty extension: what the object held before must not
+	// be mixed with the identities and binders of b
+	e.Identities, e.Binders = nil, nil
+
 	var identitiesLength uint16
 	if !s.ReadUint16(&identitiesLength) {
 		return 0, errors.New("tls: invalid PSK extension")
